@@ -318,16 +318,30 @@ pub fn run_batch(scens: &[&'static Scenario], opts: &BatchOpts) -> BatchResult {
             }
             // watchdog: the only real clock in a verdict path, and only for "the simulation
             // thread itself is stuck" (virtual time cannot see a busy loop).
-            s.spawn(|| loop {
+            s.spawn(|| {
+              // Hang = the same run observed in progress on 5 * threshold-seconds consecutive
+              // 200 ms ticks of this watchdog *and* for longer than the threshold. Counting ticks
+              // (not only elapsed wall time) keeps a paused VM or a long scheduling stall from
+              // being mistaken for a busy loop of the simulation thread.
+              let mut seen: Vec<(u64, u64)> = vec![(u64::MAX, 0); hearts.len()];
+              loop {
                 std::thread::sleep(Duration::from_millis(200));
                 if done_workers.load(Ordering::SeqCst) as usize == opts.workers {
                     break;
                 }
-                for h in &hearts {
-                    if let Some((when, i, seed)) = *h.started.lock().unwrap() {
-                        if when.elapsed() > hang_threshold() {
-                            *hang.lock().unwrap() = Some((i, seed));
+                for (wi, h) in hearts.iter().enumerate() {
+                    match *h.started.lock().unwrap() {
+                        Some((when, i, seed)) => {
+                            if seen[wi].0 == i {
+                                seen[wi].1 += 1;
+                            } else {
+                                seen[wi] = (i, 1);
+                            }
+                            if when.elapsed() > hang_threshold() && seen[wi].1 >= 5 * hang_threshold().as_secs() - 5 {
+                                *hang.lock().unwrap() = Some((i, seed));
+                            }
                         }
+                        None => seen[wi] = (u64::MAX, 0),
                     }
                 }
                 if let Some((i, seed)) = *hang.lock().unwrap() {
@@ -348,6 +362,7 @@ pub fn run_batch(scens: &[&'static Scenario], opts: &BatchOpts) -> BatchResult {
                     write_minimal_evidence(opts, scen, t_start, 1);
                     std::process::exit(1);
                 }
+              }
             });
         });
 
